@@ -22,6 +22,10 @@ def run(pids=None) -> int:
         pid = meta["property"]
         if pids and pid not in pids:
             continue
+        if meta.get("expected", "").startswith("not detected"):
+            print(f"SEED {meta['id']} ({pid}): {meta['expected']} - not run")
+            skipped += 1
+            continue
         wt = Path(tempfile.mkdtemp(prefix="verif-seed-")) / "wt"
         try:
             subprocess.run(["git", "-C", str(REPO), "worktree", "add", "-q", "--detach", str(wt), "HEAD"], check=True, capture_output=True)
